@@ -676,9 +676,13 @@ func (ex *Exec) indexValue(p *Path, base, idx Value, multi bool, pos token.Pos) 
 			ex.unsupp(pos, "index through pointer to array")
 		}
 	case *types.Map:
-		_, dom, val, _ := ex.c.mapParts(base.Ty)
+		_, dom, val, isnil := ex.c.mapParts(base.Ty)
 		k := ex.convert(p, idx, bt.Key(), pos)
 		present := "(select " + app(dom, base.T) + " " + k.T + ")"
+		// a nil map has no entries (language fact): a key that is present witnesses a non-nil map
+		if ex.quantFacts == nil {
+			ex.assumeFact(p, implies(present, not(app(isnil, base.T))))
+		}
 		stored := Value{"(select " + app(val, base.T) + " " + k.T + ")", bt.Elem()}
 		if inv := ex.c.typeInvariant(stored); inv != "true" {
 			ex.assumeFact(p, implies(present, inv))
